@@ -157,6 +157,14 @@ class Degree:
                 self.block(s.body, env, fi, rets)
         elif isinstance(s, ast.Expr):
             self.ev(s.value, env, fi)
+        elif isinstance(s, ast.Try):
+            self.block(s.body, env, fi, rets)
+            for h in s.handlers:
+                self.block(h.body, env, fi, rets)
+            self.block(s.orelse, env, fi, rets)
+            self.block(s.finalbody, env, fi, rets)
+        elif isinstance(s, ast.With):
+            self.block(s.body, env, fi, rets)
         elif isinstance(s, (ast.Raise, ast.Pass, ast.Import, ast.ImportFrom, ast.Continue, ast.Break, ast.Assert, ast.Global, ast.Nonlocal)):
             pass
         else:
@@ -422,10 +430,11 @@ def r61(ctx, res):
     res.count("functions with a degree summary", len(dg.memo))
 
 
-def _acc_loop(fi: FunctionInfo, coll_attr: str, elem_call: str, elem_ok=None) -> Tuple[bool, str]:
+def _acc_loop(fi: FunctionInfo, coll_attr: str, elem_call: str, elem_ok=None, iter_texts=None) -> Tuple[bool, str]:
     """acc = 0; for x in self.<coll>: acc += x.<elem_call>(); return acc   (no condition, full collection);
     elem_ok(expr, var) replaces the test "expr is <var>.<elem_call>()" when given"""
     sn = fi.self_name or fi.params[0]
+    whole = iter_texts if iter_texts is not None else ("%s.%s" % (sn, coll_attr), "%s.%s()" % (sn, coll_attr))
     if elem_ok is not None:
         def _is_elem(v, var):
             return var is not None and elem_ok(v, var)
@@ -437,8 +446,8 @@ def _acc_loop(fi: FunctionInfo, coll_attr: str, elem_call: str, elem_ok=None) ->
     loops = [x for x in walk_local(fi.node) if isinstance(x, ast.For)]
     for lp in loops:
         it = lp.iter
-        if txt(it) not in ("%s.%s" % (sn, coll_attr), "%s.%s()" % (sn, coll_attr)):
-            if isinstance(it, (ast.Subscript, ast.Call)) and coll_attr in txt(it):
+        if txt(it) not in whole:
+            if isinstance(it, (ast.Subscript, ast.Call)) and coll_attr and coll_attr in txt(it):
                 return False, "iterates `%s`, not the whole of %s" % (txt(it), coll_attr)
             continue
         b0 = lp.body[0] if len(lp.body) == 1 else None
@@ -471,7 +480,7 @@ def _acc_loop(fi: FunctionInfo, coll_attr: str, elem_call: str, elem_ok=None) ->
         if isinstance(r, ast.Return) and isinstance(r.value, ast.Call) and isinstance(r.value.func, ast.Name) and r.value.func.id == "sum" \
                 and len(r.value.args) == 1 and isinstance(r.value.args[0], (ast.GeneratorExp, ast.ListComp)):
             ge = r.value.args[0]
-            if len(ge.generators) == 1 and txt(ge.generators[0].iter) in ("%s.%s" % (sn, coll_attr), "%s.%s()" % (sn, coll_attr)):
+            if len(ge.generators) == 1 and txt(ge.generators[0].iter) in whole:
                 if ge.generators[0].ifs:
                     return False, "the comprehension filters the elements of %s" % coll_attr
                 var = ge.generators[0].target.id if isinstance(ge.generators[0].target, ast.Name) else None
@@ -480,6 +489,16 @@ def _acc_loop(fi: FunctionInfo, coll_attr: str, elem_call: str, elem_ok=None) ->
                 if not ok_call:
                     return False, "sums `%s`, expected %s of each element" % (txt(v), elem_call)
                 return True, "sum(<element>.%s() ...) over all of %s.%s" % (elem_call, sn, coll_attr)
+    # the accumulation lives in a one-parameter helper that is handed the whole collection:  return _total(self.<coll>)
+    if iter_texts is None:
+        for r in walk_local(fi.node):
+            v = r.value if isinstance(r, ast.Return) else None
+            if isinstance(v, ast.Call) and isinstance(v.func, ast.Name) and len(v.args) == 1 and not v.keywords and txt(v.args[0]) in whole:
+                b = fi.resolve(v.func.id)
+                if b is not None and b.kind == "func" and b.target.cls is None and len(b.target.params) == 1:
+                    h = b.target
+                    ok, why = _acc_loop(h, coll_attr, elem_call, elem_ok, iter_texts=(h.params[0],))
+                    return ok, "%s(%s): %s" % (h.short, txt(v.args[0]), why)
     return False, "no loop over %s.%s" % (sn, coll_attr)
 
 
